@@ -423,7 +423,9 @@ pub fn run(ctx: &Ctx) {
                 let lb = sp.vector(pal, k_pair, j);
                 let b = Fe::from_limbs(&lb);
                 let bv = sp.value(&lb);
-                for op in [Bin::Add, Bin::Sub, Bin::Mul] {
+                // the compound-assignment impls are separate bodies in the fiat backends (and the base of the binary
+                // operators in the others)
+                for op in [Bin::Add, Bin::Sub, Bin::Mul, Bin::AddAssign, Bin::SubAssign, Bin::MulAssign] {
                     ctx.eval(1);
                     if let Err(e) = apply_bin(&sp, op, &a, &av, &b, &bv) {
                         ctx.violation(
